@@ -496,6 +496,11 @@ fn gen_tenant(rng: &mut Rng, keys: &mut Vec<String>) -> Tenant {
     cfg.w_cast = 0;
     *keys = cfg.keys.clone();
     let mut g = Gen::new(rng, cfg);
+    if g.rng.chance(1, 6) {
+        // a tenant that is a reapply loop at the top level: its jump back must land on its own entry
+        let (p, input) = g.toplevel_loop(budget.max(8));
+        return Tenant { src: p.top(), input };
+    }
     let p = g.program();
     let src = p.top();
     let input = gen_input(rng, keys);
